@@ -377,6 +377,8 @@ int cmd_gssvx(const case_t *c)
     opt.panel_size = hx_ienv[1]; opt.relax = hx_ienv[2]; opt.diag_pivot_thresh = u; opt.usepr = NO; opt.drop_tol = 0.0;
     opt.SymmetricMode = cint(c, "symm", 0) ? YES : NO; opt.PrintStat = NO;
     opt.perm_c = perm_c; opt.perm_r = perm_r; opt.work = NULL; opt.lwork = 0;
+    int lwq = (int)cint(c, "lwq", 0);        /* workspace query through the driver: returns before the factorization, after the equilibration */
+    if (lwq) opt.lwork = -1;
     opt.etree = intMalloc(n > 0 ? n : 1); opt.colcnt_h = intMalloc(n > 0 ? n : 1); opt.part_super_h = intMalloc(n > 0 ? n : 1);
     equed_t equed = NOEQUIL;
     if (!equil) {
@@ -402,6 +404,7 @@ int cmd_gssvx(const case_t *c)
     jo_begin(c);
     jo_int("n", n); jo_int("nnz", S.G.nnz); jo_int("np", nprocs); jo_int("info", info); jo_int("nrhs", nrhs);
     jo_int("equed", (int)equed); jo_int("trans", trans); jo_int("nr", S.nr); jo_dbl("secs", t1 - t0);
+    if (info == n + 1) { jo_int("info_np1", 1); if (nrhs == 0) jo_int("info_np1_nrhs0", 1); }
     if (tasks1 != tasks0) jo_fail("C04|threads-left", "thread count %d before and %d after the driver call", tasks0, tasks1);
     ev_t *ev = NULL; size_t nev = mon_collect(&ev);
     {   evstats_t st; memset(&st, 0, sizeof st);
@@ -416,8 +419,9 @@ int cmd_gssvx(const case_t *c)
     int notran_eff = S.nr ? (trans != 0) : (trans == 0);
     int sol = (info == 0 || info == n + 1);
 
-    /* ---- C11 (driver part): A_out and B_out are scaled exactly as equed, R, C say ---- */
-    if (info >= 0 && info <= n + 1) {
+    /* ---- C11 (driver part): A_out and B_out are scaled exactly as equed, R, C say - on every kind of return (solution,
+       singular, workspace query) ---- */
+    if ((info >= 0 && info <= n + 1) || (lwq && info > n + 1)) {
         if ((int)equed < 0 || (int)equed > 3) jo_fail("C11|equed-range", "equed = %d", (int)equed);
         if (!equil && equed != NOEQUIL) jo_fail("C11|equed-without-equilibrate", "fact = DOFACT but equed = %d", (int)equed);
         long badA = 0;
@@ -523,6 +527,9 @@ int cmd_gssvx(const case_t *c)
         } else if (cint(c, "generic_singular", 0) && want != info) jo_fail("C06|wrong-index", "info = %ld but the first structurally deficient column prefix is %ld", (long)info, want);
         if (!is_perm(perm_c, n)) jo_fail("C06|perm_c-not-bijection", "perm_c is not a permutation");
         walk_LU(&L, &U, n, "C06|factors");
+    } else if (lwq && info > n + 1) {
+        jo_int("query", 1);
+        for (size_t i = 0; i < (size_t)S.ldx * nrhs; ++i) if (!is_sentinel(S.x[i])) { jo_fail("C14|query-wrote-X", "workspace query but X was written"); break; }
     } else {
         jo_fail("C07|info-range", "expert driver returned info = %ld (n = %ld)", (long)info, (long)n);
     }
